@@ -255,10 +255,10 @@ def method(cname, name, ptypes=None):
     return Fn(cname, TU, name, flt='nano::parameter_t::' + name, select=sel, self_struct='struct nv_parameter', **common())
 
 
-def T(name, fns, solver='cadical', **kw):
+def T(name, fns, solver='cadical', prelude=None, **kw):
     # cadical decides the float <-> integer conversion queries of the update targets about 4x faster than minisat;
     # minisat (cbmc's default) is much faster on the string-assignment target (uninterpreted parsing functions)
-    return Target(name, fns, H, cbmc_flags=(['--sat-solver', solver] if solver else []), **kw)
+    return Target(name, fns, prelude or H, cbmc_flags=(['--sat-solver', solver] if solver else []), **kw)
 
 
 def check_targets():
@@ -283,6 +283,59 @@ def assign_str_fns(cname='parameter_assign_str'):
     d = astload.find_definition(TU, 'nano::parameter_t::operator=', 'operator=', sel)
     ufns, udecls = upd_fns(astload.callees(d, 'update'))
     return [method(cname, 'operator=', ['nano::string_t']), upd_enum()] + with_helpers(ufns, udecls)
+
+
+HPE = 'specs/C19/param_enum.h'
+
+
+def enum_param_targets(q, enums):
+    sn = q.split('::')[-1]
+    e = re.escape(q)
+
+    def assign():
+        c = dict(common())
+        c['types'] = TYPES + [(r'^' + e + r'$', 'int64_t')]
+        c['members'] = MEMBERS + [(r'^logical_error\|', '@throw'), (r'^operator=\|nano::parameter_t', 'parameter_assign_str!')]
+        c['calls'] = common()['calls'] + [(r'^scat\|nano::string_t \(const ' + e + r' &\)', 'nv_scat_enum_t((int64_t){0})!^')]
+        fe = Fn('parameter_assign_enum_t', enums.driver2(), 'operator=', flt='nano::parameter_t::operator=', select=lambda d: astload.template_args(d)[:1] == [q],
+                self_struct='struct nv_parameter', **c)
+        return [fe] + assign_str_fns()
+
+    def value():
+        c = dict(common())
+        c['types'] = TYPES + [(r'^' + e + r'$', 'int64_t'), (r'^(std::)?(string_view|basic_string_view<char(, std::char_traits<char>\s*)?>)$', 'struct nv_str')]
+        c['members'] = MEMBERS + [(r'^logical_error\|', '@throw'), (r'^operator basic_string_view\|', '{*self}')]
+        c['calls'] = common()['calls'] + [(r'^from_string\|' + e + r' \(const std::string_view &\)', 'nv_from_string_enum({&0})!^'),
+                                          (r'^ctor\|[^|]*basic_string_view<char[^|]*\|void \(const (std::)?basic_string_view<char[^|]*&\)', '{0}')]
+        return [Fn('parameter_value_enum_t', enums.driver2(), 'value', flt='nano::parameter_t::value', select=lambda d: astload.template_args(d)[:1] == [q],
+                   self_struct='struct nv_parameter', **c)]
+    def make():
+        v = enums._check_static_init(enums.driver2(), 'nano::parameter_t::make_enum', 'make_enum_', lambda d: astload.template_args(d)[:1] == [q], q, 'options')
+        c = dict(common())
+        pair = r'std::pair<' + e + r', char \*>'
+        c['types'] = TYPES + [(r'^' + e + r'$', 'int64_t'),
+                              (r'^(nano::)?enum_map_t<' + e + r'>$|^std::vector<' + pair + r'\s*(, std::allocator<.*)?>$', 'struct nv_etab2'),
+                              (r'__normal_iterator<\s*' + pair + r'|^std::vector<' + pair + r'.*>::const_iterator$', 'struct nv_eopt2*'),
+                              (r'^' + pair + r'$', 'struct nv_eopt2'),
+                              (r'__normal_iterator<\s*std::basic_string<char> \*|^std::vector<std::basic_string<char>.*>::iterator$', 'struct nv_str*')]
+        VE = r'(const )?(nano::)?(enum_map_t|std::vector<std::pair)<'
+        c['members'] = MEMBERS + [(r'^begin\|' + VE, '{*self}.p'), (r'^end\|' + VE, '({*self}.p + {*self}.n)'), (r'^size\|' + VE, '((uint64_t){*self}.n)')]
+        c['calls'] = common()['calls'] + [(r'^scat\|nano::string_t \(const ' + e + r' &\)', 'nv_scat_enum_t((int64_t){0})!^'),
+                                          (r'^transform\|', 'nv_transform_names({0}, {1}, {2})'),
+                                          (r'^ctor\|(nano::strings_t|std::vector<std::basic_string<char>[^|]*)\|void \((std::vector(<[^|]*>)?::)?size_type, ', 'nv_strs_sized({0})'),
+                                          (r'^ctor\|[^|]*vector<std::basic_string<char>[^|]*\|void \((std::)?vector<.*&&\)', '{0}'),
+                                          (r'^ctor\|[^|]*basic_string<char[^|]*\|void \((std::)?(__cxx11::)?basic_string<char[^|]*&&\)', '{0}'),
+                                          (r'^ctor\|nano::parameter_t\|void \(nano::string_t, nano::parameter_t::enum_t\)', 'nv_parameter_make_enum({0}, {1})!')]
+        sel = lambda d: astload.template_args(d)[:1] == [q]
+        f = Fn('make_enum_', enums.driver2(), 'make_enum_', flt='nano::parameter_t::make_enum', select=sel, aggregates=['struct nv_enum'], **c)
+        lam = Fn('make_enum_name', enums.driver2(), 'make_enum_', flt='nano::parameter_t::make_enum', select=sel, lambda_index=0, ret='struct nv_str', **c)
+        return [f, lam, ctor('parameter_ctor_enum', 'enum_t'), upd_enum()], v
+    mk = [Target(f'enum_{sn}_make', lambda: make()[0], HPE, enforce='make_enum_',
+                 defines=['NV_MAKE_ENUM=1', lambda: 'NV_MAKE_ENUM_STATIC=nv_static_make_enum__' + make()[1]],
+                 note=f'parameter_t::make_enum_<{q}>: the stored domain list is the list of the table names')]
+    return mk + [Target(f'enum_{sn}_assign', assign, HPE, enforce='parameter_assign_enum_t', replace=['parameter_assign_str'],
+                   note=f'parameter_t::operator=({q})'),
+            T(f'enum_{sn}_value', value, prelude=HPE, enforce='parameter_value_enum_t', note=f'parameter_t::value<{q}>()')]
 
 
 def build(tier):
@@ -351,8 +404,18 @@ def build(tier):
         fns = [f[top]] + [f[d] for d in deps] + [f['pred_c' if top.endswith('_c') else 'pred'], f['name']]
         targets.append(T(fns[0].cname, fns, solver=None))
     targets += clone_targets()
+    import enums
+    cpp_tables = [rel for _, rel in enums.enum_headers()[1]]
+    targets += enums.targets(tier)
+    # parameter_t::operator=(tenum) / value<tenum>() for EVERY enumeration with a table (instantiated by the generated driver)
+    for q in enums.quick_enums(tier):      # quick tier: the one representative table; thorough tier: every table
+        targets += enum_param_targets(q, enums)
+    import clones
+    targets += clones.targets(tier)
+    import factory
+    targets += factory.targets(tier)
     return {
-        'targets': targets, 'vcs': [],
+        'targets': targets, 'vcs': __import__('fields').vcs() + clones.vcs(tier),
         'decided': [
             '::check<int64|double>: returns min <= v for LE_t and min < v for LT_t (which variant index is LE_t is read from clang\'s type)',
             '::update(range_t / pair_range_t) for EVERY instantiation present in src/parameter.cpp (read from clang on each run, with the '
@@ -378,6 +441,34 @@ def build(tier):
             'constructor and assignment, gboost_model_t::prototypes(const&): the copy has the same id and equal parameters, EVERY owned '
             'sub-object is an independent clone (same id, equal parameters, another object) of the source\'s, the source is untouched; '
             'setters by id install the factory default of that id, an unknown id / null owner throws and nothing changes',
+            'enumeration tables: EVERY enum_string<T>() specialisation defined in a header of the library is found through clang (quick tier: ONE '
+            'representative table, wlearner_criterion with its aic / aicc prefix pair; thorough tier: all), its (enumerator, name) list and the '
+            'enumerator values are read from the AST, and per table, on the REAL template instantiations: from_string<T>(s) for EVERY string s '
+            '(unbounded length) returns the first entry whose name equals s, else the first entry whose name is a prefix of s, else throws; '
+            'from_string(name_k) == value_k for EVERY k (fails exactly when a name is listed twice, or -- with the exact pass removed -- when an '
+            'earlier name is a proper prefix: aic / aicc); detail::scat<T>(stream, v) appends the name of the first entry listing v, a value the '
+            'table does not list throws and appends nothing; no name and no value is listed twice (bijection); from_string(scat(e)) == e',
+            'parameter_t::value<T>() for every T of the tier: from_string<T>(stored string) for an enumeration parameter (by the table contract), any other '
+            'kind throws, nothing is modified; parameter_t::operator=(T): '
+            'a value OUTSIDE the table throws before anything is assigned, otherwise scat(value) goes through operator=(string) (by its contract), '
+            'every other kind throws and nothing changes; parameter_t::make_enum_<T>: for ANY table the constructed parameter '
+            'holds enum_t{scat(value), domain} with the domain list == the table names, position by position (real constructor and ::update inlined)',
+            'EVERY clone() definition of the library (about 135; quick tier: the directories src/loss, src/lsearch0, src/splitter, thorough tier: all; found by clang in generated unity translation units of the directories of src/ and '
+            'in the headers, class-template instantiations through the factory files): T::clone() returns a NEW object of the dynamic type T whose '
+            'complete member state (every data member, bases and parameters included) is a copy of *this, *this untouched -- '
+            'make_unique<T>() / make_unique<other>(..) / a missing *this are refuted; out-of-line clone() of class templates through the explicit '
+            'instantiations of their .cpp; every class that a factory file registers (template arguments of its add<T> instantiations; quick '
+            'tier: src/lsearch0.cpp, thorough: all eleven) defines clone() ITSELF (an inherited clone() would return a sliced base object)',
+            'every class with a user-provided copy constructor (text scan X::X(const X&); solver_t, ml::params_t, functional_t, gboost_model_t, '
+            'gboost::result_t): each data member of clang\'s RecordDecl is a member of the C model its copy contract (above) proves copied; a new '
+            'class with a hand-written copy constructor and no contract fails its obligation',
+            'include/nano/factory.h (instantiated for lsearch0_t; add<T> as instantiated by the real src/lsearch0.cpp, thorough tier: by all eleven '
+            'factory files): find = first entry registered under the id, else end; has(id) <=> registered; get(id) = null for an unknown id, else a '
+            'NEW object that is a clone of the FIRST prototype registered under exactly that id and reports that id (registration invariant: every '
+            'entry is registered under the id its prototype reports, established by add); description(id) likewise, empty for an unknown id; '
+            'size(); ids(regex): never more than registered, the id of every matching entry is listed, in registration order; add<T>: a duplicate '
+            'id is REJECTED (false, nothing registered, the first registration stays), otherwise exactly one entry (id the new prototype reports, '
+            'the prototype, the description) is appended and the earlier entries are untouched',
             '::find_param (both overloads), configurable_t::parameter / parameter_if (both overloads): returns the first parameter with that name; '
             'absent => null (optional) / throws (mandatory); register_parameter: duplicate name => throws and the list is unchanged, else the list '
             'grows by exactly the given parameter',
@@ -385,14 +476,21 @@ def build(tier):
         'not_decided': [
             'the double -> int64 conversion in ::update(range_t<int64>, double) / ::update(pair_range_t<int64>, double, double) for x == -2^63 exactly '
             '(defined in C++, rejected by cbmc\'s conversion check)',
-            'value<tenum>(), make_enum_ (enum <-> string tables: enum_string / from_string); operator=(tenum) for enums other than the '
-            'instantiated nano::solver_status (same template)',
-            'make_scalar_ / make_integer_ ... (header factories: casts of min / value / max, then the constructors proved here)',
+            f'enum_string<T>() specialisations defined in a .cpp file (found by the text prefilter of this run: {cpp_tables}; csearch_status is not a parameter) are reported, not '
+            'checked (a driver cannot include them); the wrapper nano::scat(v) = detail::scat into an empty std::ostringstream + str() (STL); that '
+            'every make_enum call site names an enumeration whose table is checked is established by a TEXT scan of the call sites (scheduling), '
+            'not by clang; whether a table lists EVERY enumerator of its enumeration (an unlisted enumerator cannot be assigned: it throws)',
+            'make_scalar_ / make_integer_ ... (header factories: casts of min / value / max, then the constructors proved here): their '
+            'instantiations are spread over about a hundred translation units; not extracted',
             'which strings std::stoll / std::stod accept and what ::split_pair returns (uninterpreted; DESIGN C19 X)',
             'solver_t::make_lsearch (clones, then overwrites two parameters), ml::params_t::logger, the default constructors, the move '
             'operations (= default), behavioural equality of a clone (trajectories) beyond equal configuration',
             'parameter_t::read / write (serialisation; read() stores the record from the stream WITHOUT the domain check -- see final report), '
-            'operator==, clone equality and factory ids (DESIGN C19 X)',
+            'operator==',
+            'clone(): that the IMPLICIT / defaulted copy constructors copy every base and member is C++ semantics (assumed), lambda_function_t '
+            '(class template over user lambdas, never instantiated by the library) is not under contract; factory_t for the ten other object '
+            'types (same template, not re-extracted), the regular expression semantics of ids(), the T::all() registration functions themselves '
+            '(which classes are registered; that no two registered classes report the same id is decided natively by the replay driver only)',
         ],
         'assumptions': [
             'std::variant: index() identifies the active alternative; std::visit(overloaded{...}, v) calls the overload chosen by overload resolution '
@@ -409,10 +507,21 @@ def build(tier):
             'scat(enumerator) is a deterministic function of the enumerator (uninterpreted)',
             'value<int64>() / value_pair<int64>() on a REAL parameter: the stored double is representable as int64 (the reader\'s own cast; a real '
             'parameter\'s domain may exceed it -- required as a precondition of those two readers only)',
-            'T::clone() of the leaf classes (lsearch0_t, lsearchk_t, tuner_t, splitter_t, function_t, wlearner_t; solver_t as seen from '
-            'ml::params_t): a NEW object with the same registered id and equal parameters (their copy constructors are the compiler\'s, or '
-            'solver_t\'s under contract); factory_t::get(id): a fresh clone of the prototype registered under id, or null (which ids exist '
-            'and the prototypes\' configurations are uninterpreted functions of the id)',
+            'T::clone() as used by the owners (solver_t, ml::params_t, functional_t, gboost) and by factory_t::get: a NEW object with the same '
+            'registered id and equal member state -- no longer assumed outright: it is the contract proved for every clone() definition '
+            '(targets clones_*), given that std::make_unique<T>(const T&) is new T(copy) and that implicit / defaulted copy constructors copy '
+            'every base and member (C++ semantics); factory_t::get(id) as used by the setters: a fresh clone of the prototype registered under id, '
+            'or null (proved: factory_get; which ids exist and the prototypes\' configurations are uninterpreted functions of the id)',
+            'enumeration tables: std::vector<std::pair<T, const char*>> built from an initializer list holds exactly the listed pairs in order '
+            '(the table is read from the AST of enum_string<T>(), whose body must be a single `return {{E::a, "a"}, ...};`); the function-local '
+            '`static const auto options = enum_string<T>()` holds that table (checked on the AST: the initialiser is that call); '
+            'std::string_view(const char*) = the characters up to the terminator, operator== = same length and characters, '
+            'find(const char*) == 0 <=> prefix (any other result non-zero); operator<<(ostream&, const char*) appends the string',
+            'clone() targets: the definitions are read from generated unity translation units (one per directory, the real .cpp files included '
+            'verbatim); name lookup inside them is that of the single files (a directory that does not compile as a unit falls back to one unit per file)',
+            'factory.h: std::find_if returns the first position satisfying the (real, extracted) lambda, else last; emplace_back / push_back append and '
+            'keep the others (reallocation not modelled); std::make_unique<T>(args...) yields a new object; typed_t::type_id() returns the stored id; '
+            'std::regex_match is a deterministic predicate of (string, regex) (uninterpreted); at most 10^5 registered prototypes',
             'implicit copy constructors / assignments of the bases (typed_t, configurable_t, learner_t) and of plain members (tensors, '
             'logger_t) copy their value; std::unique_ptr move-assignment / std::move transfer the pointer; std::vector::reserve + '
             'emplace_back within the reserved capacity append in order',
@@ -492,6 +601,57 @@ def replay_clones(mode):
     return out
 
 
+def replay_enum(rp):
+    """table-level counterexamples: the verifier's counterexample is an index of the real table, so the native scenario sweeps the
+    table of that enumeration on the REAL headers: from_string(name) == enumerator, scat(enumerator) == name, and the typed read of
+    a parameter made from / assigned the enumerator returns it"""
+    import os
+    import replaylib
+    import enums
+    sn = re.sub(r'^enum_|_(from_string|scat|roundtrip|assign|value|make)$', '', rp['target'])
+    qs = [q for q in enums.tables() if q.split('::')[-1] == sn]
+    out = {'reproduced': False, 'runs': [], 'note': 'every entry of the real enum_string<T>() table, through the real from_string / scat / parameter_t'}
+    if len(qs) != 1:
+        out['note'] = f'no table for {sn}'
+        return out
+    q, t = qs[0], enums.tables()[qs[0]]
+    src = os.path.join(astload.SCRATCH, 'gen', f'c19_enum_replay_{sn}.cpp')
+    os.makedirs(os.path.dirname(src), exist_ok=True)
+    open(src, 'w').write(f'''// GENERATED native replay for the table of {q}
+#include <cstdio>
+#include <nano/parameter.h>
+#include "{t['file']}"
+using T = {q};
+int main()
+{{
+    int bad = 0;
+    for (const auto& [value, name] : nano::enum_string<T>())
+    {{
+        try
+        {{
+            if (nano::from_string<T>(name) != value) {{ std::printf("FAIL: from_string(\\"%s\\") is another enumerator\\n", name); bad = 1; }}
+            if (nano::scat(value) != name) {{ std::printf("FAIL: scat(enumerator of \\"%s\\") = \\"%s\\"\\n", name, nano::scat(value).c_str()); bad = 1; }}
+            auto param = nano::parameter_t::make_enum("p", value);
+            if (param.value<T>() != value) {{ std::printf("FAIL: make_enum(%s).value<T>() is another enumerator\\n", name); bad = 1; }}
+            for (const auto& [other, oname] : nano::enum_string<T>())
+            {{
+                param = other;
+                if (param.value<T>() != other) {{ std::printf("FAIL: assigned %s, read back another enumerator\\n", oname); bad = 1; }}
+            }}
+        }}
+        catch (const std::exception& e) {{ std::printf("FAIL: %s: exception %s\\n", name, e.what()); bad = 1; }}
+    }}
+    if (!bad) std::printf("OK: every enumerator of the table round-trips\\n");
+    return bad;
+}}
+''')
+    exe = replaylib.build_header_only(src, f'C19_enum_replay_{sn}', extra=[os.path.join(replaylib.REPO, 'src', 'parameter.cpp')])
+    rc, so, se = replaylib.run_driver(exe, [])
+    out['runs'].append({'exit': rc, 'output': so.strip()[-1500:]})
+    out['reproduced'] = rc == 1
+    return out
+
+
 def replay(rp):
     """record-level counterexamples (::update on a range / pair record): the counterexample's domain and assigned
     number(s) are driven through the public API of a real parameter_t (make_integer / make_scalar / ..., operator=)
@@ -502,7 +662,9 @@ def replay(rp):
     out = {'reproduced': False, 'runs': []}
     if rp['target'] in ('parameter_assign_str', 'parameter_assign_enum'):
         return replay_strings(rp)
-    for prefix, mode in (('solver_', 'solver'), ('mlparams_', 'mlparams'), ('functional_', 'functional'), ('gboost_', 'gboost'),
+    if rp['target'].startswith('enum_'):
+        return replay_enum(rp)
+    for prefix, mode in (('clones_', 'factories'), ('factory_', 'factories'), ('solver_', 'solver'), ('mlparams_', 'mlparams'), ('functional_', 'functional'), ('gboost_', 'gboost'),
                          ('gbresult_', 'gboost'), ('wlearners_', 'gboost')):
         if rp['target'].startswith(prefix):
             return replay_clones(mode)
